@@ -125,6 +125,20 @@ def run_impl(c):
             out["data_off"] = "ok"
         except Exception as e:
             out["data_off"] = type(e).__name__
+        # both annotations declared and both validations requested; the lineage annotation is correct (component index), so the
+        # outcome must be the tracklet verdict
+        comp = {}
+        for k, cc in enumerate(sorted(components(c["nodes"], c["edges"]), key=lambda s: min(s))):
+            for x in cc:
+                comp[x] = k
+        md2 = GeffMetadata(directed=True, node_props_metadata={}, edge_props_metadata={}, track_node_props={"tracklet": "trk", "lineage": "lin"})
+        g2 = dict(g, metadata=md2, node_props={"trk": {"values": labels, "missing": None},
+                                               "lin": {"values": np.array([comp[x] for x in c["nodes"]], dtype="int64"), "missing": None}})
+        try:
+            validate_data(g2, ValidationConfig(tracklet=True, lineage=True))
+            out["data_both"] = "ok"
+        except Exception as e:
+            out["data_both"] = type(e).__name__
     return out
 
 
@@ -153,6 +167,9 @@ def oracle(c, o):
             return Failure(c, o, f"validate_data(tracklet=True) gives {o['data']} but validator says valid={o['valid']}", {"why": "wiring"})
         if o["data_off"] != "ok":
             return Failure(c, o, f"tracklet validation disabled but validate_data raised {o['data_off']}", {"why": "disabled-raises"})
+        if (o["data_both"] == "ok") != o["valid"] or o["data_both"] not in ("ok", "ValueError"):
+            return Failure(c, o, f"validate_data(tracklet=True, lineage=True) with a correct lineage annotation gives {o['data_both']} "
+                           f"but the tracklet annotation is valid={o['valid']}", {"why": "wiring-both"})
     return None
 
 
